@@ -2,7 +2,7 @@
 import collections, json, os
 import vcheck
 from vcheck import sh, BIN, REPO
-import c17
+import c17, c18
 
 GO_CMDS = ["gengrammar", "genlex", "h_parse", "h_crash", "h_query"]
 TRANSLATORS = ["gengrammar", "genlex"]
@@ -10,7 +10,8 @@ COQ_PROJECTS = ["Grammar", "Lexer", "Engine"]
 TRUSTED = vcheck.STD_TRUSTED + [
     "channel/goroutine semantics of the Go runtime as modelled in coq/Engine/Chan.v (FIFO buffered channel, close, range)",
     "planning and execution are NOT modelled for this property: panics, hangs and leaks there are only observed by the "
-    "crash-mode run (in-process recover, child processes for panics in engine goroutines, 5 s watchdog, goroutine count)",
+    "crash-mode run (in-process recover, child processes for panics in engine goroutines, 5 s watchdog whose hits are confirmed alone with a 60 s watchdog, "
+    "goroutines left behind judged by the goroutine dump)",
 ]
 
 BAD = ("panic", "killed", "hang", "leak", "nil_table_nil_error")
@@ -86,7 +87,10 @@ def run(ctx):
         bad += [k + i for i in vcheck.parse_nat_list(out, "M")]
     for i in bad[:3]:
         ctx.violation({"kind": "executed-but-model-parser-rejects", "case": passed[i]})
-    ctx.cov["evaluations"] = len(rows)
+    # tie of C08_llk_no_index_panic: the window model of llk.go against the real grammar.LLk (same run as in C18, fewer cases)
+    lrows = c18.llk_corr(ctx, 400 if thorough else 20, name="cases_c08_llk")
+    ctx.cov["llk_runs"] = len(lrows)
+    ctx.cov["evaluations"] = len(rows) + len(lrows)
     seen = set()
     for r in rows:
         if r["outcome"] != "parse_error":
